@@ -1,6 +1,6 @@
 (* C10 - property theorems only.  A generator is any state machine
    (S, reseed, draw); the theorems hold for every one of them. *)
-From HV Require Import Prelude Stats C10_Model C10_Check C10_Proofs.
+From HV Require Import Prelude Stats C10_Model C10_Check C10_Proofs C10_Process.
 From Coq Require Import PrimFloat SpecFloat FloatOps QArith Qabs.
 Open Scope Z_scope.
 
@@ -121,11 +121,20 @@ Print Assumptions C10_holds_phenotype_sound.
 
 Theorem C10_agree_genotype_meaning :
   forall c, fst (check_genotype c) = true ->
+  (r_gaps (g_a c) = 0 /\ r_private (g_a c) = 0 /\ r_gaps (g_b c) = 0 /\ r_private (g_b c) = 0) /\
   forall k, g_seed c = Some k ->
     r_start (g_a c) = g_ref c /\ r_start (g_b c) = g_ref c
     /\ r_trace (g_a c) = r_trace (g_b c) /\ r_end (g_a c) = r_end (g_b c).
 Proof. exact agree_genotype_meaning_l. Qed.
 Print Assumptions C10_agree_genotype_meaning.
+
+Theorem C10_agree_phenotype_meaning :
+  forall seed ref r, agree_prun seed ref r = true ->
+  (forall k, seed = Some k -> p_start r = ref)
+  /\ model_starts seed ref r = map fst (p_steps r)
+  /\ p_glob r = 0 /\ p_rngs r = 1.
+Proof. exact agree_prun_meaning_l. Qed.
+Print Assumptions C10_agree_phenotype_meaning.
 
 (* EVERY draw of a seeded run - not only the first - is made from a state that depends on
    seed and inputs only, the same values are drawn, and the state left behind ([last] of
@@ -257,3 +266,149 @@ Example C10_holds_qreps_example :
   /\ holds_qreps false [] [mkq true [1; 2] [11; 12]; mkq true [3; 5] [14; 17]]%Q = false.
 Proof. exact holds_qreps_example_l. Qed.
 Print Assumptions C10_holds_qreps_example.
+
+(* ---- "whatever ran earlier in the same process".  A process = global generator + store (all
+   other persistent state) + OS entropy; earlier programs are ARBITRARY process programs
+   (draw, re-seed, read and overwrite the store, consume entropy).
+   Sufficient: a simulation whose result cannot observe the store, behind the repaired guard,
+   gives the same output and leaves the same generator state after any two histories started
+   in any two processes. *)
+Theorem C10_seeded_after_any_history :
+  forall (S D Rq M : Type) (reseed : Z -> S) (draw : Rq -> S -> D * S) (O : Type)
+         (body : pprog D Rq M O) (k : Z),
+  store_blind S D Rq M reseed draw body ->
+  forall (hist hist' : list (pprog D Rq M unit)) (w w' : proc S M),
+    fst (exec S D Rq M reseed draw (geno_cmd D Rq M false (Some k) body) (run_hist S D Rq M reseed draw hist w))
+    = fst (exec S D Rq M reseed draw (geno_cmd D Rq M false (Some k) body) (run_hist S D Rq M reseed draw hist' w'))
+    /\ pr_gen _ _ (snd (exec S D Rq M reseed draw (geno_cmd D Rq M false (Some k) body) (run_hist S D Rq M reseed draw hist w)))
+       = pr_gen _ _ (snd (exec S D Rq M reseed draw (geno_cmd D Rq M false (Some k) body) (run_hist S D Rq M reseed draw hist' w'))).
+Proof. exact seeded_after_any_history_l. Qed.
+Print Assumptions C10_seeded_after_any_history.
+
+(* Necessary: earlier programs can leave anything in the store, so reproducibility after every
+   history (even from one and the same starting process) forces the result to be independent
+   of the store.  "No other persistent state" is therefore exactly what the double runs after
+   generated histories test of the code. *)
+Theorem C10_history_independent_needs_blind :
+  forall (S D Rq M : Type) (reseed : Z -> S) (draw : Rq -> S -> D * S) (O : Type)
+         (body : pprog D Rq M O) (k : Z),
+  (forall (hist hist' : list (pprog D Rq M unit)) (w : proc S M),
+      fst (exec S D Rq M reseed draw (geno_cmd D Rq M false (Some k) body) (run_hist S D Rq M reseed draw hist w))
+      = fst (exec S D Rq M reseed draw (geno_cmd D Rq M false (Some k) body) (run_hist S D Rq M reseed draw hist' w))) ->
+  forall (m m' : M) (e : Z),
+    fst (exec S D Rq M reseed draw body (mkproc S M (reseed k) m e))
+    = fst (exec S D Rq M reseed draw body (mkproc S M (reseed k) m' e)).
+Proof. exact history_independent_needs_blind_l. Qed.
+Print Assumptions C10_history_independent_needs_blind.
+
+(* The structural form of the hypothesis: a program without PGet / PPut / PEntropy nodes is
+   store-blind and leaves store and entropy as it found them; every drawing program of the
+   first section is one. *)
+Theorem C10_gen_only_frame :
+  forall (S D Rq M : Type) (reseed : Z -> S) (draw : Rq -> S -> D * S) (R : Type) (p : pprog D Rq M R),
+  gen_only D Rq M p ->
+  forall s m e m' e',
+    fst (exec S D Rq M reseed draw p (mkproc S M s m e)) = fst (exec S D Rq M reseed draw p (mkproc S M s m' e'))
+    /\ pr_gen _ _ (snd (exec S D Rq M reseed draw p (mkproc S M s m e)))
+       = pr_gen _ _ (snd (exec S D Rq M reseed draw p (mkproc S M s m' e')))
+    /\ pr_mem _ _ (snd (exec S D Rq M reseed draw p (mkproc S M s m e))) = m
+    /\ pr_entropy _ _ (snd (exec S D Rq M reseed draw p (mkproc S M s m e))) = e.
+Proof. exact gen_only_frame_l. Qed.
+Print Assumptions C10_gen_only_frame.
+
+Theorem C10_lift_gen_only :
+  forall (D Rq M R : Type) (p : prog D Rq R), gen_only D Rq M (lift D Rq M p).
+Proof. exact lift_gen_only_l. Qed.
+Print Assumptions C10_lift_gen_only.
+
+(* Every simulator of the first section, after any history of arbitrary earlier programs: the
+   output and the generator state left behind are those of [run (P i) (reseed k)]; the store is
+   handed on as the history left it. *)
+Theorem C10_lifted_after_any_history :
+  forall (S D Rq M : Type) (reseed : Z -> S) (draw : Rq -> S -> D * S) (I O : Type)
+         (P : I -> prog D Rq O) (k : Z) (i : I) (hist : list (pprog D Rq M unit)) (w : proc S M),
+  fst (exec S D Rq M reseed draw (geno_cmd D Rq M false (Some k) (lift D Rq M (P i))) (run_hist S D Rq M reseed draw hist w))
+  = fst (run S D Rq draw (P i) (reseed k))
+  /\ pr_gen _ _ (snd (exec S D Rq M reseed draw (geno_cmd D Rq M false (Some k) (lift D Rq M (P i))) (run_hist S D Rq M reseed draw hist w)))
+     = snd (run S D Rq draw (P i) (reseed k))
+  /\ pr_mem _ _ (snd (exec S D Rq M reseed draw (geno_cmd D Rq M false (Some k) (lift D Rq M (P i))) (run_hist S D Rq M reseed draw hist w)))
+     = pr_mem _ _ (run_hist S D Rq M reseed draw hist w).
+Proof. exact lifted_after_any_history_l. Qed.
+Print Assumptions C10_lifted_after_any_history.
+
+Theorem C10_lifted_history_independent :
+  forall (S D Rq M : Type) (reseed : Z -> S) (draw : Rq -> S -> D * S) (I O : Type)
+         (P : I -> prog D Rq O) (k : Z) (i : I) (hist hist' : list (pprog D Rq M unit)) (w w' : proc S M),
+  fst (exec S D Rq M reseed draw (geno_cmd D Rq M false (Some k) (lift D Rq M (P i))) (run_hist S D Rq M reseed draw hist w))
+  = fst (exec S D Rq M reseed draw (geno_cmd D Rq M false (Some k) (lift D Rq M (P i))) (run_hist S D Rq M reseed draw hist' w')).
+Proof. exact lifted_history_independent_l. Qed.
+Print Assumptions C10_lifted_history_independent.
+
+(* the process view is the first section's simgenotype_run, for both guards and every seed option *)
+Theorem C10_geno_cmd_is_simgenotype_run :
+  forall (S D Rq M : Type) (reseed : Z -> S) (draw : Rq -> S -> D * S) (I O : Type) (legacy : bool)
+         (P : I -> prog D Rq O) (seed : option Z) (i : I) (w : proc S M),
+  fst (exec S D Rq M reseed draw (geno_cmd D Rq M legacy seed (lift D Rq M (P i))) w)
+  = fst (simgenotype_run S D Rq reseed draw legacy P seed (pr_gen _ _ w) i)
+  /\ pr_gen _ _ (snd (exec S D Rq M reseed draw (geno_cmd D Rq M legacy seed (lift D Rq M (P i))) w))
+     = snd (simgenotype_run S D Rq reseed draw legacy P seed (pr_gen _ _ w) i).
+Proof. exact geno_cmd_is_simgenotype_run_l. Qed.
+Print Assumptions C10_geno_cmd_is_simgenotype_run.
+
+(* simphenotype with a seed after any two histories: same noise vectors, and the process
+   (global generator, store, entropy) is left exactly as the history left it *)
+Theorem C10_simphenotype_after_any_history :
+  forall (S D Rq M : Type) (reseed : Z -> S) (draw : Rq -> S -> D * S) (k : Z) (reqs : list Rq)
+         (hist hist' : list (pprog D Rq M unit)) (w w' : proc S M),
+  fst (exec S D Rq M reseed draw (pheno_cmd S D Rq M reseed draw (Some k) reqs) (run_hist S D Rq M reseed draw hist w))
+  = fst (exec S D Rq M reseed draw (pheno_cmd S D Rq M reseed draw (Some k) reqs) (run_hist S D Rq M reseed draw hist' w'))
+  /\ snd (exec S D Rq M reseed draw (pheno_cmd S D Rq M reseed draw (Some k) reqs) (run_hist S D Rq M reseed draw hist w))
+     = run_hist S D Rq M reseed draw hist w.
+Proof. exact pheno_after_any_history_l. Qed.
+Print Assumptions C10_simphenotype_after_any_history.
+
+Theorem C10_pheno_cmd_is_simphenotype_run :
+  forall (S D Rq M : Type) (reseed : Z -> S) (draw : Rq -> S -> D * S) (seed : option Z) (reqs : list Rq) (w : proc S M),
+  fst (exec S D Rq M reseed draw (pheno_cmd S D Rq M reseed draw seed reqs) w)
+  = simphenotype_run S D Rq reseed draw seed (mkworld S (pr_gen _ _ w) (pr_entropy _ _ w)) reqs
+  /\ pr_gen _ _ (snd (exec S D Rq M reseed draw (pheno_cmd S D Rq M reseed draw seed reqs) w)) = pr_gen _ _ w
+  /\ pr_mem _ _ (snd (exec S D Rq M reseed draw (pheno_cmd S D Rq M reseed draw seed reqs) w)) = pr_mem _ _ w.
+Proof. exact pheno_cmd_is_simphenotype_run_l. Qed.
+Print Assumptions C10_pheno_cmd_is_simphenotype_run.
+
+Theorem C10_run_hist_app :
+  forall (S D Rq M : Type) (reseed : Z -> S) (draw : Rq -> S -> D * S) (a b : list (pprog D Rq M unit)) (w : proc S M),
+  run_hist S D Rq M reseed draw (a ++ b) w = run_hist S D Rq M reseed draw b (run_hist S D Rq M reseed draw a w).
+Proof. exact run_hist_app_l. Qed.
+Print Assumptions C10_run_hist_app.
+
+(* Every state in the trace of a run is the previous one advanced by one draw: nothing else
+   moves the generator between two recorded states (the counterpart of r_gaps = 0). *)
+Theorem C10_trace_linked :
+  forall (S D Rq : Type) (draw : Rq -> S -> D * S) (R : Type) (p : prog D Rq R) (s : S),
+  hd s (trace S D Rq draw p s) = s /\ linked S D Rq draw (trace S D Rq draw p s).
+Proof. exact trace_linked_l. Qed.
+Print Assumptions C10_trace_linked.
+
+(* The leak through the store refuted on the toy generator (the shape of a per-path memoised
+   map parser whose marker objects a --region run updates in place): same seed, another output
+   after the earlier region run; the store-free simulation is unaffected. *)
+Example C10_store_leak_refuted :
+  fst (exec Z Z unit Z lcg_reseed lcg_draw (geno_cmd Z unit Z false (Some 1) leaky_body)
+         (run_hist Z Z unit Z lcg_reseed lcg_draw [] (mkproc Z Z 5 0 0)))
+  <> fst (exec Z Z unit Z lcg_reseed lcg_draw (geno_cmd Z unit Z false (Some 1) leaky_body)
+         (run_hist Z Z unit Z lcg_reseed lcg_draw [region_run_before] (mkproc Z Z 5 0 0)))
+  /\ fst (exec Z Z unit Z lcg_reseed lcg_draw (geno_cmd Z unit Z false (Some 1) clean_body)
+         (run_hist Z Z unit Z lcg_reseed lcg_draw [] (mkproc Z Z 5 0 0)))
+     = fst (exec Z Z unit Z lcg_reseed lcg_draw (geno_cmd Z unit Z false (Some 1) clean_body)
+         (run_hist Z Z unit Z lcg_reseed lcg_draw [region_run_before] (mkproc Z Z 5 0 0))).
+Proof. exact store_leak_refuted_l. Qed.
+Print Assumptions C10_store_leak_refuted.
+
+(* the hypothesis store_blind is satisfiable (the lift of one_draw) and not trivial (leaky_body fails it) *)
+Example C10_store_blind_inhabited :
+  store_blind Z Z unit Z lcg_reseed lcg_draw clean_body
+  /\ clean_body = lift Z unit Z (one_draw tt)
+  /\ ~ store_blind Z Z unit Z lcg_reseed lcg_draw leaky_body.
+Proof. exact store_blind_inhabited_l. Qed.
+Print Assumptions C10_store_blind_inhabited.
